@@ -726,7 +726,7 @@ func checkC08(c *Ctx) string {
 	n := 0
 	for _, fs := range t.mutators {
 		par := parentMap(fs.Body)
-		blockParam := fs.ParamNamed("block")
+		blockParam := boolParam(fs) // update(…, block bool): false for cascaded updates
 		edge := func(f *FuncSrc, cond ast.Expr, truth bool) []string {
 			if id, ok := cond.(*ast.Ident); ok && blockParam != nil && f.Info().Uses[id] == types.Object(blockParam) {
 				if truth {
@@ -882,11 +882,14 @@ func checkC08(c *Ctx) string {
 			for _, keyEmpty := range []bool{false, true} {
 				for _, ex := range []bool{false, true} {
 					env := &AbsEnv{Info: fs.Info(), Atom: func(e ast.Expr) (constant.Value, bool) {
-						if id, ok := e.(*ast.Ident); ok && id.Name == "key" {
-							if keyEmpty {
-								return constant.MakeString(""), true
+						// the key under test: the string-typed local compared in the guard
+						if id, ok := e.(*ast.Ident); ok {
+							if v, isVar := fs.Info().Uses[id].(*types.Var); isVar && !v.IsField() && types.Identical(v.Type().Underlying(), types.Typ[types.String]) {
+								if keyEmpty {
+									return constant.MakeString(""), true
+								}
+								return constant.MakeString("k"), true
 							}
-							return constant.MakeString("k"), true
 						}
 						if call, ok := e.(*ast.CallExpr); ok && sameFunc(Callee(fs.Info(), call), fkExists) {
 							return constant.MakeBool(ex), true
